@@ -1483,6 +1483,34 @@ impl Config {
     }
 
     pub fn validate(&mut self) -> Result<(), Error> {
+        // The connection pools cannot be built with a connect timeout, idle timeout or
+        // server lifetime of zero (the pool builder panics): refuse the file instead.
+        let mut timeouts = vec![
+            ("general".to_string(), "connect_timeout", Some(self.general.connect_timeout)),
+            ("general".to_string(), "idle_timeout", Some(self.general.idle_timeout)),
+            ("general".to_string(), "server_lifetime", Some(self.general.server_lifetime)),
+        ];
+
+        for (name, pool) in self.pools.iter() {
+            timeouts.push((format!("pool {}", name), "connect_timeout", pool.connect_timeout));
+            timeouts.push((format!("pool {}", name), "idle_timeout", pool.idle_timeout));
+            timeouts.push((format!("pool {}", name), "server_lifetime", pool.server_lifetime));
+
+            for user in pool.users.values() {
+                let whose = format!("pool {}, user {}", name, user.username);
+                timeouts.push((whose.clone(), "connect_timeout", user.connect_timeout));
+                timeouts.push((whose.clone(), "idle_timeout", user.idle_timeout));
+                timeouts.push((whose, "server_lifetime", user.server_lifetime));
+            }
+        }
+
+        for (whose, setting, value) in timeouts {
+            if value == Some(0) {
+                error!("{} ({}) must be greater than zero", setting, whose);
+                return Err(Error::BadConfig);
+            }
+        }
+
         // Validation for auth_query feature
         if self.general.auth_query.is_some()
             && (self.general.auth_query_user.is_none()
